@@ -37,3 +37,21 @@ Proof.
   split; [vm_compute; discriminate|]. split; [vm_compute; reflexivity|]. intros name x H. cbn [model_journal_reads In] in H.
   repeat (destruct H as [H|H]; [inversion H; subst; vm_compute; reflexivity|]). contradiction.
 Qed.
+
+(* validJournal's own tests as translated: the 28 bytes read up front, the sanity test on the sector size, the rest of the first sector that must
+   be readable - the model's valid_journal is exactly these, on the model's reading of the header *)
+Theorem valid_journal_source j :
+  valid_journal j =
+  if (len j <? go_journal_header_bytes)%Z then false
+  else if negb (forallb (fun p => (b2z (fst p) =? snd p)%Z) (combine (take 8 j) journal_magic)) then false
+  else let ss := twos 32 (fld j 20 4) in
+       if go_journal_sector_refused ss then false
+       else (go_journal_header_bytes + go_journal_rest_bytes ss go_journal_header_bytes <=? len j)%Z.
+Proof.
+  unfold valid_journal, go_journal_header_bytes, go_journal_sector_refused, go_journal_rest_bytes.
+  change (Z.shiftl 1 16) with 65536%Z.
+  destruct (len j <? 28)%Z; [reflexivity|]. destruct (negb _); [reflexivity|]. cbv zeta.
+  rewrite !Bool.orb_false_r.
+  destruct ((twos 32 (fld j 20 4) <? 512) || (65536 <? twos 32 (fld j 20 4)))%Z%bool; [reflexivity|].
+  replace (28 + (twos 32 (fld j 20 4) - 28))%Z with (twos 32 (fld j 20 4)) by ring. reflexivity.
+Qed.
